@@ -15,30 +15,44 @@
 (***************************************************************************)
 EXTENDS Recv, Integers
 
-ConnInit(stream) == [InitState(stream, FALSE, FALSE) EXCEPT !.strict = TRUE]
+ConnInit(stream) == [tmo |-> 2000, aborted |-> FALSE] @@ [InitState(stream, FALSE, FALSE) EXCEPT !.strict = TRUE]
 
 DVoid == Due("ret", 99, 99, <<>>, "")
-NewApis == {"send", "ping", "send_close", "close", "shutdown"}
+NewApis == {"send", "ping", "send_close", "close", "shutdown", "settimeout", "gettimeout", "abort"}
+\* (settimeout / gettimeout / abort are beyond the listed properties: their clauses are named X08.* and are
+\*  reported as drift of the specification's extended coverage, never as a violation of C08)
 
 KCall(s, e) ==
   IF s.call.active THEN Fail(s, "harness.nested_call")
   ELSE LET s1 == [s EXCEPT !.call = [active |-> TRUE, api |-> e.api, control |-> FALSE], !.callT = e.t] IN
   CASE e.api \in {"send", "ping"} ->
          IF ~s.sockOpen THEN Res([s1 EXCEPT !.due = <<DRaise("Closed")>>], TRUE, "")
+         ELSE IF s.aborted THEN Res([s1 EXCEPT !.due = <<DRaise("Transport")>>], TRUE, "")   \* the transport was shut down by abort()
          ELSE Res([s1 EXCEPT !.due = <<DSend(e.op, e.payload), DVoid>>], TRUE, "")
     [] e.api = "send_close" ->
          IF e.status < 0 \/ e.status > 65535 THEN Res([s1 EXCEPT !.due = <<DRaise("ValueError")>>], TRUE, "")
          ELSE IF ~s.sockOpen THEN Res([s1 EXCEPT !.due = <<DRaise("Closed")>>, !.connected = FALSE], TRUE, "")
+         ELSE IF s.aborted THEN Res([s1 EXCEPT !.due = <<DRaise("Transport")>>, !.connected = FALSE], TRUE, "")
          ELSE Res([s1 EXCEPT !.connected = FALSE, !.explicitCloses = @ + 1,
                              !.due = <<DSend(OpClose, CloseBody(e.status, e.reason)), DVoid>>], TRUE, "")
     [] e.api = "shutdown" ->
          Res([s1 EXCEPT !.due = (IF s.sockOpen THEN <<Due("tclose", 0, 0, <<>>, "")>> ELSE <<>>) \o <<DVoid>>,
                         !.connected = FALSE], TRUE, "")
+    [] e.api = "settimeout" ->
+         Res([s1 EXCEPT !.due = (IF s.sockOpen THEN <<Due("tsettimeout", e.value, 0, <<>>, "")>> ELSE <<>>) \o <<DVoid>>,
+                        !.closeTimeout = @, !.tmo = e.value], TRUE, "")
+    [] e.api = "gettimeout" -> Res([s1 EXCEPT !.due = <<Due("retval", s.tmo, 0, <<>>, "")>>], TRUE, "")
+    [] e.api = "abort" ->
+         \* wakes up readers: the transport is shut down (not released), only while the connection is up
+         Res([s1 EXCEPT !.due = (IF s.connected /\ s.sockOpen THEN <<Due("tshutdown", 0, 0, <<>>, "")>> ELSE <<>>) \o <<DVoid>>,
+                        !.aborted = @ \/ (s.connected /\ s.sockOpen)], TRUE, "")
     [] e.api = "close" ->
          IF ~s.connected THEN
             \* nothing to negotiate any more; whatever transport is still held is released
             Res([s1 EXCEPT !.due = (IF s.sockOpen THEN <<Due("tclose", 0, 0, <<>>, "")>> ELSE <<>>) \o <<DVoid>>], TRUE, "")
          ELSE IF e.status < 0 \/ e.status > 65535 THEN Res([s1 EXCEPT !.due = <<DRaise("ValueError")>>], TRUE, "")
+         ELSE IF s.aborted THEN   \* nothing can be written any more: only the release is left
+              Res([s1 EXCEPT !.connected = FALSE, !.closeTimeout = e.timeout, !.due = <<>>, !.closing = TRUE], TRUE, "")
          ELSE Res([s1 EXCEPT !.connected = FALSE, !.ownCloses = @ + 1, !.closeTimeout = e.timeout,
                              !.due = <<DSend(OpClose, CloseBody(e.status, e.reason))>>, !.closing = TRUE], TRUE, "")
     [] OTHER -> Fail(s, "harness.unknown_api")
@@ -75,6 +89,10 @@ KRet(s0, e) ==
        IF d.k = "send" THEN Fail(s, IF d.op = OpClose THEN "C08.close_frame_not_written" ELSE "C08.frame_not_written")
        ELSE IF d.k = "tclose" THEN
             Fail(s, IF s.call.api = "close" THEN "C08.close_after_peer_close_leaves_transport_open" ELSE "C08.shutdown_leaves_transport_open")
+       ELSE IF d.k = "tsettimeout" THEN Fail(s, "X08.settimeout_not_applied_to_transport")
+       ELSE IF d.k = "tshutdown" THEN Fail(s, "X08.abort_did_not_shut_the_transport_down")
+       ELSE IF d.k = "retval" THEN
+            IF e.value # d.op THEN Fail(s, "X08.gettimeout_value") ELSE Res(EndCall(s), TRUE, "")
        ELSE IF d.k = "raise" THEN
             Fail(s, IF d.cls = "ValueError" THEN "C08.out_of_range_status_accepted" ELSE "C08.call_on_closed_connection_returned")
        ELSE IF e.connected # s.connected THEN Fail(s, "C08.connected_flag")
@@ -90,14 +108,20 @@ KRaise(s0, e) ==
           Fail(s, IF e.cls = "WebSocketConnectionClosedException" THEN "C08.open_connection_reported_closed" ELSE "C08.spurious_exception")
        ELSE IF d.cls = "ValueError" THEN
             IF e.cls = "ValueError" THEN Res(EndCall(s), TRUE, "") ELSE Fail(s, "C08.out_of_range_status_not_refused_with_ValueError")
+       ELSE IF d.cls = "Transport" THEN
+            IF e.terr \/ e.doc THEN Res(EndCall(s), TRUE, "") ELSE Fail(s, "C17.undocumented_exception")
        ELSE IF e.cls # ClsOf(d.cls) THEN Fail(s, "C08.loss_not_reported_as_connection_closed")
        ELSE Res(EndCall(s), TRUE, "")
 
 KStep(s, e) ==
-  IF e.ev = "call" /\ e.api \in NewApis THEN KCall(s, e)
+  IF e.ev = "blocked" THEN (IF s.tmo = -1 THEN Res(s, TRUE, "") ELSE Fail(s, "C17.no_progress"))   \* a read without timeout on a silent peer
+  ELSE IF e.ev = "call" /\ e.api \in NewApis THEN KCall(s, e)
   ELSE IF e.ev = "tclose" THEN KTClose(s, e)
   ELSE IF e.ev \in {"tshutdown", "tsettimeout"} THEN
-       IF s.call.active /\ (s.closing \/ s.call.api \in {"close", "shutdown"}) THEN Res(s, TRUE, "")
+       IF s.call.active /\ s.due # <<>> /\ Head(s.due).k = e.ev THEN
+          IF e.ev = "tsettimeout" /\ e.value # Head(s.due).op THEN Fail(s, "X08.settimeout_value_not_applied_to_transport")
+          ELSE Res([s EXCEPT !.due = Tail(@)], TRUE, "")
+       ELSE IF s.call.active /\ (s.closing \/ s.call.api \in {"close", "shutdown"}) THEN Res(s, TRUE, "")
        ELSE IF e.ev = "tsettimeout" THEN Res(s, TRUE, "") ELSE Fail(s, "C08.transport_shut_down_outside_close")
   ELSE IF s.call.active /\ s.call.api \in NewApis THEN
        CASE e.ev = "ret" -> KRet(s, e)
